@@ -9,7 +9,25 @@ _spec = importlib.util.spec_from_file_location("translate_dfa", os.path.join(_ro
 _dfa = importlib.util.module_from_spec(_spec)
 _spec.loader.exec_module(_dfa)
 
+def _sweep(ctx):
+    """exhaustive short-input sweep through the real decoders (crash isolation in a child process)"""
+    import json
+    import subprocess
+    try:
+        p = subprocess.run([ctx["exe"], "tool", "c02sweep"], env=ctx["env"], stdout=subprocess.PIPE, stderr=subprocess.DEVNULL,
+                           timeout=1200, text=True)
+        out = json.loads(p.stdout)
+    except Exception as e:  # noqa: BLE001
+        return {"violations": [{"kind": "failing-input", "what": "short-input sweep did not complete: %s" % e, "case": {}}]}
+    vio = [{"kind": "failing-input", "what": "short-input sweep: crash, chunking-dependent events, empty or out-of-order raw event",
+            "case": v} for v in out.get("violations", [])[:5]]
+    return {"violations": vio, "coverage": {"sweep_strings": out.get("strings", 0), "sweep_failures": len(out.get("violations", []))},
+            "notes": ["exhaustive sweep of all 2-byte strings (both decoders) and all ESC [ + 2 bytes: %d strings, %d failures"
+                      % (out.get("strings", 0), len(out.get("violations", [])))]}
+
+
 PROP = {'gen': [],
+ 'extra': [_sweep],
  'pre_coq': [_dfa.pre_coq],
  'coq_props': ['theories/Props/C02.vo'],
  'coq_corr': ['theories/Corr/C02Corr.vo'],
@@ -19,8 +37,9 @@ PROP = {'gen': [],
                'TTYCommandDecoder / Utf8Decoder run in a child process)',
  'level_text': 'Coq theorems over an executable model of the three public decoders (generic tokeniser of C03 instantiated at the '
                'automata regenerated from the source, one checked Gallina function per Matcher::decode body): for every byte string and '
-               'every partition into reads no payload decoder panics on any string the automaton accepts (shape certificates checked by '
-               'reflection on the regenerated tables), the loops terminate, an exhausted decoder returns None; characters are scalar '
+               'every partition into reads no payload decoder panics on any string the automaton accepts (three shape certificates - '
+               'lengths, XTWINOPS pieces, XTGETTCAP hex fields - checked by reflection on the regenerated tables), the loops terminate, an '
+               'exhausted decoder returns None, Utf8Decoder never overruns its buffer; characters are scalar '
                'values, numeric fields are the unbounded decimal values of their digits or the sequence is unrecognised, raw events are '
                'non-empty and spans reassemble the input in order.',
  'level_note': 'Trusted: Coq kernel + vm_compute; hand-written payload models validated by the correspondence run; DFA dump hook + '
@@ -30,7 +49,7 @@ PROP = {'gen': [],
               'automata) + model/implementation correspondence with crash observation in a child process',
  'design_ref': 'DESIGN.md 6.2',
  'n_quick': 2500,
- 'n_thorough': 40000,
+ 'n_thorough': 20000,
  'shard': 125,
  'level': 'proof',
  'trusted_base': [KERNEL,
